@@ -1,5 +1,7 @@
 import LyModel.Path.Print
 import LyModel.Path.Eval
+import LyModel.Path.Typed
+import LyModel.Val.DrvU
 /-!
 Driver ops of component `path` (plumbing only: (de)serialisation of trees/schemas and formatting of results).
 
@@ -18,6 +20,16 @@ Serialisations are single protocol tokens (no blanks):
   pathof <tree> <addr> <type> <buflen> -> ok <pathhex> <cap> <nwrites> | ok ~ (returned buffer never written) | err Null
   find <schema> <tree> <path>          -> ok <addr> | err <Enum> [addr]
   newpath <schema> <tree> <path> <val> -> ok <parent-addr> <tree-of-created-chain> | err <Enum>
+
+Typed variants (`Typed.lean`): the schema serialisation carries, for a leaf / leaf-list, `#<n>` in place of the (empty) child list —
+the index of its type in the `;`-separated descriptor list `<types>` (descriptors of component `val`: `i8:1..5`, `d2`, `bool`,
+`enum:<hex>=<v>,…`, `bits:<hex>=<pos>,…`, `str:<len>`, `idref:<leafmod>:<bases>@<graph>`, `U(<d>|<d>…)`; `?` = a type outside the
+model) — and the values of the tree are value keys (canonical string, for a union value that its canonical string does not
+identify followed by `00` and the member index).
+  tfind <tschema> <types> <tree> <path>          -> as find
+  tnewpath <tschema> <types> <tree> <path> <val> -> as newpath
+  tpathsof <tree>                                -> ok <pathhex>*   (lyd_path of every node: canonical strings of the value keys)
+  tstore <desc> <lit>                            -> ok <keyhex> | err Invalid | err Unsupported
 -/
 namespace LyModel.Path.Drv
 open LyModel LyModel.Path
@@ -96,6 +108,51 @@ def parseSNodes : Nat → List Char → Option (List SNode × List Char)
           | none => none
         | _ => none
   | _ + 1, cs => some ([], cs)
+
+/-- typed schema: a terminal node has `#<n>` (index into the type table) where an inner node has its children -/
+def parseTSNodes (tys : Array (Option KTy)) : Nat → List Char → Option (List TSNode × List Char)
+  | 0, _ => none
+  | f + 1, '(' :: r =>
+    match hexField r with
+    | none => none
+    | some (m, r) =>
+      match hexField r with
+      | none => none
+      | some (n, r) =>
+        match r with
+        | kc :: ',' :: r =>
+          match kindOfChar kc with
+          | some k =>
+            let (ty, r) : Option KTy × List Char := match r with
+              | '#' :: r' =>
+                let (ds, r'') := r'.span Char.isDigit
+                (((String.ofList ds).toNat?.bind (fun i => tys[i]?)).join, r'')
+              | _ => (none, r)
+            match parseTSNodes tys f r with
+            | some (ch, ')' :: r) =>
+              match parseTSNodes tys f r with
+              | some (sibs, r) => some (TSNode.mk m n k ty ch :: sibs, r)
+              | none => none
+            | _ => none
+          | none => none
+        | _ => none
+  | _ + 1, cs => some ([], cs)
+
+/-- a type descriptor of component `val` as a path type; identityref values arrive in the JSON prefix format -/
+def ktyOfDesc (d : String) : Option KTy :=
+  if d == "?" then none
+  else if d.startsWith "U(" then (Val.DrvU.parseUTy .json (d.length + 1) d).map fun u => KTy.ofUnion u.flatten
+  else if d.startsWith "idref:" then (Val.DrvU.parseIdTy d).map fun t => KTy.ofPlug (Val.idrefPlug t.ctx t.bases t.pmJson t.pmJson)
+  else (Val.Drv.parseTy d).map fun t => KTy.ofPlug (Val.MTy.base t).plug
+
+def readTypes (s : String) : Array (Option KTy) :=
+  if s == "-" then #[] else ((s.splitOn ";").map ktyOfDesc).toArray
+
+def readTSchema (s types : String) : Option (List TSNode) :=
+  if s == "-" then some [] else
+  match parseTSNodes (readTypes types) (s.length + 1) s.toList with
+  | some (f, []) => some f
+  | _ => none
 
 def readTree (s : String) : Option Forest :=
   if s == "-" then some [] else
@@ -190,6 +247,37 @@ def handle (op : String) (args : List String) : String :=
       | .ok c => "ok " ++ showAddr c.parent ++ " " ++ showDNodes (p.length + 2) [c.chain]
       | .error e => showErr e
     | _, _, _, _ => "err BadArg"
+  | "tfind", [s, tys, t, p] =>
+    match readTSchema s tys, readTree t, Hex.dec p with
+    | some sc, some f, some path =>
+      match findPathT sc f (cstr path) with
+      | .ok a => "ok " ++ showAddr a
+      | .error e => showErr e
+    | _, _, _ => "err BadArg"
+  | "tnewpath", [s, tys, t, p, v] =>
+    match readTSchema s tys, readTree t, Hex.dec p, Hex.dec v with
+    | some sc, some f, some path, some val =>
+      match newPathT sc f (cstr path) (cstr val) with
+      | .ok c => "ok " ++ showAddr c.parent ++ " " ++ showDNodes (p.length + 2) [c.chain]
+      | .error e => showErr e
+    | _, _, _, _ => "err BadArg"
+  | "tpathsof", [t] =>
+    match readTree t with
+    | some f => " ".intercalate ("ok" :: (allAddrs (t.length + 1) f).map fun a =>
+        match pathOfT f a with
+        | some b => Hex.enc b
+        | none => "?")
+    | none => "err BadTree"
+  | "tstore", [d, x] =>
+    match Hex.dec x with
+    | some lit =>
+      match ktyOfDesc d with
+      | none => "err Unsupported"
+      | some t =>
+        match t.store lit with
+        | some k => "ok " ++ Hex.enc k
+        | none => "err Invalid"
+    | none => "err BadArg"
   | _, _ => "err BadOp"
 
 end LyModel.Path.Drv
